@@ -99,6 +99,45 @@ int main(int argc, char** argv) {
           if (got.has_value() != wok || (wok && *got != want)) { ++g_fail; if (g_first.empty()) g_first = "explicit precedences on binary rules ([5] >>= f, (>= f)[-1], [6] >= f), input '" + in + "': grouped as " + (got ? *got : S("<rejected>")) + ", the declared precedences give " + (wok ? want : S("<rejected>")); }
           if (wok) ++g_accept;
       } }
+    {   // precedence and associativity carried by a typed term (wrapping a char term and a string term), by a string term and by a regex term:
+        // '-' (1, ltor) typed ; "**" (2, rtol) typed string term ; %+ (3, ltor) regex term
+        static constexpr char_term c_minus('-', 1, associativity::ltor);
+        static constexpr string_term s_pow("**", 2, associativity::rtol);
+        static constexpr char mod_pat[] = "%+"; static constexpr regex_term<mod_pat> r_mod("mod", 3, associativity::ltor);
+        static const typed_term t_minus(c_minus, [](auto sv) { return S(sv); });
+        static const typed_term t_pow(s_pow, [](auto sv) { return S(sv); });
+        static const parser p(expr, terms('2', t_minus, t_pow, r_mod), nterms(expr), rules(
+            expr('2') >= leaf,
+            expr(expr, t_minus, expr) >= [](S&& a, auto&&, S&& b) { return "(" + a + "-" + b + ")"; },
+            expr(expr, t_pow, expr) >= [](S&& a, auto&&, S&& b) { return "(" + a + "^" + b + ")"; },
+            expr(expr, r_mod, expr) >= [](S&& a, auto&&, S&& b) { return "(" + a + "%" + b + ")"; }));
+        std::vector<S> in2{""}; const char al2[] = {'2', '-', '*', '%', ' '};
+        for (size_t lo = 0, l = 0; l < (size_t)n; ++l) { size_t hi = in2.size(); for (size_t i = lo; i < hi; ++i) for (char c : al2) in2.push_back(in2[i] + c); lo = hi; }
+        for (const char* x : {"2**2**2-2%2%%2", "2-2**2%2-2", "2%2**2**2%2"}) in2.push_back(x);
+        for (const S& in : in2) {
+            ++g_cases; ++g_checks;
+            // tokens: 0 operand, 1 '-', 2 "**", 3 %+
+            std::vector<int> t; bool lexok = true;
+            for (size_t i = 0; i < in.size() && lexok;) { char c = in[i]; if (c == ' ') ++i; else if (c == '2') { t.push_back(0); ++i; } else if (c == '-') { t.push_back(1); ++i; } else if (c == '*' && i + 1 < in.size() && in[i + 1] == '*') { t.push_back(2); i += 2; } else if (c == '%') { while (i < in.size() && in[i] == '%') ++i; t.push_back(3); } else lexok = false; }
+            static const int prec[4] = {0, 1, 2, 3}; static const bool rtol[4] = {false, false, true, false}; static const char* sym[4] = {"", "-", "^", "%"};
+            size_t pos = 0; bool ok = lexok;
+            std::function<S(int, bool)> parse = [&](int min, bool strict) -> S {
+                if (!(pos < t.size() && t[pos] == 0)) { ok = false; return ""; }
+                ++pos; S lhs = "2";
+                while (ok && pos < t.size()) {
+                    int op = t[pos]; if (op == 0) { ok = false; break; }
+                    if (strict ? prec[op] <= min : prec[op] < min) break;
+                    ++pos; S rhs = parse(prec[op], !rtol[op]);    // right associative: the right operand also takes operators of the same level
+                    lhs = "(" + lhs + sym[op] + rhs + ")";
+                }
+                return lhs;
+            };
+            S want = ok ? parse(-1, false) : S(); bool wok = ok && pos == t.size();
+            std::ostringstream es; auto got = p.parse(string_buffer(S(in)), es);
+            if (got.has_value() != wok || (wok && *got != want)) { ++g_fail; if (g_first.empty()) g_first = "precedence carried by typed / string / regex terms, input '" + in + "': grouped as " + (got ? *got : S("<rejected>")) + ", the declared precedences give " + (wok ? want : S("<rejected>")); }
+            if (wok) ++g_accept;
+        }
+    }
     S esc; for (char c : g_first) { if (c == '"' || c == '\\') esc += '\\'; esc += c; }
     std::printf("{\"cases\": %ld, \"checks\": %ld, \"failures\": %ld, \"accepted\": %ld, \"first_failure\": \"%s\"}\n", g_cases, g_checks, g_fail, g_accept, esc.c_str());
     return g_fail ? 1 : 0;
